@@ -8,16 +8,18 @@ Formats (all statements for all lists of descriptions, all field values, all tra
   `Fmt.norm names f` what a reader that knows the data type reconstructs (members the shape does not
   have are zero, a fixed-length type has its size as maximum length) — both in Lemmas/CodecFieldsRt.lean.
 * `ParamFmt.dec_encSpec` / `RowFmt.dec_encSpec`  the Go readers decode what a server laying the
-  token out by the book sends (ROWFMT2 and PARAMFMT/2; for the narrow ROWFMT the statement is FALSE:
-  `RowFmt.narrow_counterexample`, the reader takes a 4-byte length).
+  token out by the book sends (PARAMFMT/2 and ROWFMT/2; the narrow ROWFMT since /repo 9daa22d).
 * `ParamFmt.enc_eq_encSpec`  the Go writer produces exactly the TDS layout; hence
   `ParamFmt.roundtrip` (reader ∘ writer) and `ParamFmt.length_fields` (every length / count member
   written equals the size / number of what follows it).
 * `FmtPkg.decSpec_encSpec`, `ParamFmt.matches_spec`  the independent length-delimited decoder accepts the
   layout, hence the writer's bytes (client-sent leg).
-* BLOB: `ParamFmt.blob_roundtrip_counterexample` (the reader rejects what the writer wrote: per-field
-  byte count), `ParamFmt.blob_spec_counterexample`, `RowFmt.blob_spec_counterexample` (a BLOB description
-  laid out by the book is misread: `readLengthBytes(ch, -1)` consumes a byte).
+* BLOB — known finding `blob-not-functional`: `ParamFmt.blob_roundtrip_counterexample` (the reader rejects
+  what the writer wrote: per-field byte count), `ParamFmt.blob_enc_counterexample`,
+  `ParamFmt.blob_spec_counterexample`, `RowFmt.blob_spec_counterexample` (a BLOB description laid out by the
+  book is misread: `readLengthBytes(ch, -1)` consumes a byte), `Row.blob_roundtrip_counterexample` (the data
+  reader drops the last chunk), `Row.blob_enc_panic_counterexample` (the data writer panics above 1024 bytes
+  unless the length is a multiple of 1024).
 
 Data (ROW / PARAMS):
 * `Row.dec_layout`  for every list of formats and raw data laid out by the book, the Go reader
@@ -68,44 +70,41 @@ theorem encSpecBody_eq (row wide : Bool) (fs : List Fmt) :
         (leEncode 2 fs.length ++ (fs.map (Fmt.layout (row && wide) wide)).flatten) := by
   simp [FmtPkg.encSpecBody, frame, fmtsLayout, leEncode_length]
 
-/-- **ROWFMT2**: the Go reader decodes the TDS layout -/
-theorem RowFmt.dec_encSpec (fs : List Fmt) (rest : Bytes) (h : FmtPkg.WF true true fs) :
-    RowFmt.dec true (FmtPkg.encSpecBody true true fs ++ rest) =
-      .ok (fs.map (Fmt.norm true)) (FmtPkg.encSpecBody true true fs).length := by
+/-- **ROWFMT / ROWFMT2**: the Go reader decodes the TDS layout (2-byte length and 1-byte status for
+the narrow token, 4-byte length, 4-byte status and the four extra names for ROWFMT2) -/
+theorem RowFmt.dec_encSpec (wide : Bool) (fs : List Fmt) (rest : Bytes) (h : FmtPkg.WF true wide fs) :
+    RowFmt.dec wide (FmtPkg.encSpecBody true wide fs ++ rest) =
+      .ok (fs.map (Fmt.norm wide)) (FmtPkg.encSpecBody true wide fs).length := by
   obtain ⟨hf, hc, ht⟩ := h
   have hc' : fs.length < 256 ^ 2 := by simpa using hc
   rw [fmtsLayout_length] at ht
-  simp only [Bool.and_self] at hf ht
-  have ht' : 2 + ((fs.map (Fmt.layout true true)).flatten).length < 256 ^ 4 := by simpa [lw] using ht
+  simp only [Bool.true_and] at hf ht
   have hfield : ∀ f ∈ fs, ∀ (β' : Type) (g : Fmt × Int → P β') (r : Bytes),
-      (RowFmt.field true >>= g) (Fmt.layout true true f ++ r) =
-        shift (Fmt.layout true true f).length (g (Fmt.norm true f, ((Fmt.layout true true f).length : Int)) r) :=
-    fun f hfm β' g r => readFromField_layout true true f r g (hf f hfm)
+      (RowFmt.field wide >>= g) (Fmt.layout wide wide f ++ r) =
+        shift (Fmt.layout wide wide f).length (g (Fmt.norm wide f, ((Fmt.layout wide wide f).length : Int)) r) :=
+    fun f hfm β' g r => readFromField_layout wide wide f r g (hf f hfm)
   have hrep := fun (g : List (Fmt × Int) → P (List Fmt)) r =>
-    replicateM_layout (RowFmt.field true) (Fmt.layout true true)
-      (fun f => (Fmt.norm true f, ((Fmt.layout true true f).length : Int))) fs hfield g r
-  have hsum : (2 + sumInt (List.map (fun x => ((Fmt.layout true true x).length : Int)) fs) ==
-        ((2 + ((fs.map (Fmt.layout true true)).flatten).length : Nat) : Int)) = true := by
-    rw [sumInt_lengths (Fmt.layout true true) fs]; simp
+    replicateM_layout (RowFmt.field wide) (Fmt.layout wide wide)
+      (fun f => (Fmt.norm wide f, ((Fmt.layout wide wide f).length : Int))) fs hfield g r
+  have hsum : (2 + sumInt (List.map (fun x => ((Fmt.layout wide wide x).length : Int)) fs) ==
+        ((2 + ((fs.map (Fmt.layout wide wide)).flatten).length : Nat) : Int)) = true := by
+    rw [sumInt_lengths (Fmt.layout wide wide) fs]; simp
   rw [encSpecBody_eq]
-  simp only [Bool.and_self, lw, if_true]
+  simp only [Bool.true_and]
   unfold RowFmt.dec
-  rt_simp [ht', hc', hrep, List.map_map, Function.comp_def]
+  rt_simp [ht, hc', hrep, List.map_map, Function.comp_def]
   rt_simp [guard_bind_true _ _ _ hsum]
 
-/-- **narrow ROWFMT**: a package laid out by the book (2-byte length) is NOT decoded: the reader
-takes 4 bytes as length. Witness: the package without columns, `EE 02 00 00 00`. -/
-theorem RowFmt.narrow_counterexample :
-    RowFmt.dec false (FmtPkg.encSpecBody true false []) = .notEnough := by decide
-
+/-- the column used in the examples -/
 def int4Column : Fmt :=
   { name := [0x61], status := 0, userType := 0, dataType := 0x38, maxLength := 4, precision := 0, scale := 0,
     blobType := 0, classId := [], tableName := [], locale := [], label := [], catalogue := [], schema := [],
     table := [] }
 
-/-- … and with one INT4 column the two count bytes are taken for the high half of the length -/
-theorem RowFmt.narrow_counterexample_int4 :
-    FmtPkg.WF true false [int4Column] ∧ RowFmt.dec false (FmtPkg.encSpecBody true false [int4Column]) = .err 13 := by
+/-- non-vacuity for the narrow token (the former counterexample: before /repo 9daa22d the reader took a
+4-byte length for ROWFMT too and this package was misread) -/
+example : FmtPkg.WF true false [int4Column] ∧
+    RowFmt.dec false (FmtPkg.encSpecBody true false [int4Column]) = .ok [int4Column] 13 := by
   refine ⟨⟨?_, by decide, by decide⟩, by decide⟩
   intro f hf
   simp only [List.mem_singleton] at hf
@@ -226,7 +225,13 @@ theorem ParamFmt.matches_spec (wide : Bool) (fs : List Fmt) (rest : Bytes) (h : 
   have := FmtPkg.decSpec_encSpec false wide fs rest h
   simpa using this
 
-/-! ### BLOB descriptions: counterexamples
+/-! ### BLOB descriptions: counterexamples — the Lean side of the known finding `blob-not-functional`
+
+BLOB (data type 0x24) support of /repo is not functional as a whole and stays unrepaired (the correct
+wire layout cannot be established offline): the format accounting below, and for the data the reader
+that drops the last chunk and the writer that panics above 1024 bytes (`blobChunks`, `encBlobChunks` of
+Model/Codec/FieldsRow.lean, tied to the code by the harness). The harness files every failing case
+that involves a BLOB column under that one finding (`ffIsBlobCase`, go/cmd/harness/codec_fields.go).
 
 A BLOB description is excluded from `Fmt.WF` because every statement above fails for it: BLOB is
 in neither `ByteSizes` nor `LengthBytes`, so `LengthBytes()` is -1; `readFromBase` / `writeToBase`
@@ -238,25 +243,48 @@ def blobColumn (bt : Nat) (ci : Bytes) : Fmt :=
     blobType := bt, classId := ci, tableName := [], locale := [], label := [], catalogue := [], schema := [],
     table := [] }
 
-/-- the PARAMFMT reader rejects what the PARAMFMT writer wrote for a BLOB column (blob type 4, no
-class id): the per-field check compares the reader's count 0 with `FormatByteLength() = 1` -/
+/-- known finding `blob-not-functional`: the PARAMFMT reader rejects what the PARAMFMT writer wrote for a
+BLOB column (blob type 4, no class id): the per-field check compares the reader's count 0 with
+`FormatByteLength() = 1` -/
 theorem ParamFmt.blob_roundtrip_counterexample :
     ParamFmt.enc false [blobColumn 4 []] = .ok (0xEC :: ParamFmt.encBody false [blobColumn 4 []]) ∧
     ParamFmt.dec false (ParamFmt.encBody false [blobColumn 4 []]) = .err 15 := by decide
 
-/-- with a class id (blob types 1, 2) the writer itself fails — after having written the package:
-it counted more bytes than it announced -/
+/-- known finding `blob-not-functional`: with a class id (blob types 1, 2) the writer itself fails — after
+having written the package: it counted more bytes than it announced -/
 theorem ParamFmt.blob_enc_counterexample : ParamFmt.enc false [blobColumn 1 [0x63]] = .err := by decide
 
-/-- a BLOB description laid out by the book is misread by both format readers (the blob type is
-taken for the length byte, …) -/
+/-- known finding `blob-not-functional`: a BLOB description laid out by the book is misread by both format
+readers (the blob type is taken for the length byte, …) -/
 theorem ParamFmt.blob_spec_counterexample :
     ParamFmt.dec false (FmtPkg.encSpecBody false false [blobColumn 4 []]) = .notEnough ∧
     ParamFmt.dec true (FmtPkg.encSpecBody false true [blobColumn 4 []]) = .notEnough := by decide
 
+/-- known finding `blob-not-functional`: the same for ROWFMT2 and ROWFMT -/
 theorem RowFmt.blob_spec_counterexample :
     RowFmt.dec true (FmtPkg.encSpecBody true true [blobColumn 4 []]) = .notEnough ∧
-    RowFmt.dec true (FmtPkg.encSpecBody true true [blobColumn 1 [0x63]]) = .notEnough := by decide
+    RowFmt.dec true (FmtPkg.encSpecBody true true [blobColumn 1 [0x63]]) = .notEnough ∧
+    RowFmt.dec false (FmtPkg.encSpecBody true false [blobColumn 4 []]) = .notEnough := by decide
+
+/-- known finding `blob-not-functional`, data: the reader drops the last chunk of what the writer wrote — the
+5 data bytes are neither returned nor consumed (they are taken for the next column / package) -/
+theorem Row.blob_roundtrip_counterexample :
+    Row.enc true [blobColumn 4 []] [.blob 0 2 [] [] [1, 2, 3, 4, 5]] =
+      .ok [0xD1, 0, 5, 0, 0, 0x80, 1, 2, 3, 4, 5] ∧
+    Row.dec [blobColumn 4 []] [0, 5, 0, 0, 0x80, 1, 2, 3, 4, 5] = .ok [.blob 0 2 [] [] []] 5 := by decide
+
+/-- known finding `blob-not-functional`, data: the writer panics (slice bounds) on every value longer than
+1024 bytes whose length is not a multiple of 1024 -/
+theorem Row.blob_enc_panic_counterexample (data : Bytes) (h1 : 1024 < data.length) (h2 : data.length % 1024 ≠ 0) :
+    Row.enc true [blobColumn 4 []] [.blob 0 2 [] [] data] = .panic := by
+  have hcls : (blobColumn 4 []).cls = some .blob := by decide
+  have hc : encBlobChunks data = none := by
+    unfold encBlobChunks
+    simp [Nat.not_le.mpr h1, h2]
+  simp [Row.enc, Row.encFields, encData, hcls, hc]
+
+example : ∃ data : Bytes, 1024 < data.length ∧ data.length % 1024 ≠ 0 :=
+  ⟨List.replicate 1025 0, by rw [List.length_replicate]; omega, by rw [List.length_replicate]; omega⟩
 
 /-! ## ROW / PARAMS -/
 
